@@ -158,6 +158,16 @@ mod v1 {
                             }
                         }
                         Ok(None) | Err(pubsub::error::RecvError::Closed) => return,
+                        // records how many values were skipped, then falls through to the arm below
+                        #[cfg(ractor_verif)]
+                        Err(pubsub::error::RecvError::Lagged(n))
+                            if {
+                                crate::verif::emit("out.lagged", 0, n as i64);
+                                false
+                            } =>
+                        {
+                            unreachable!()
+                        }
                         Err(pubsub::error::RecvError::Lagged(_)) => continue,
                     }
                 }
@@ -287,6 +297,8 @@ mod v2 {
             allow_duplicate_subscription: bool,
         ) {
             let mut segment_start = 0;
+            #[cfg(ractor_verif)]
+            crate::verif::emit("out.batch", 0, batch.len() as i64);
             #[cfg(feature = "tokio_runtime")]
             let mut coop_count = 0u32;
 
